@@ -23,6 +23,28 @@ class Own:
     pass
 
 
+def wraps_deco(fn):
+    """an ordinary synchronous decorator that uses functools.wraps"""
+    import functools
+
+    @functools.wraps(fn)
+    def wrapper(*a, **k):
+        return fn(*a, **k)
+    return wrapper
+
+
+class my_classmethod(classmethod):
+    """project-specific descriptor subclasses (like abc.abstractclassmethod, a validating property, ...)"""
+
+
+class my_staticmethod(staticmethod):
+    pass
+
+
+class my_property(property):
+    pass
+
+
 '''
 KINDMAP = {inspect.Parameter.POSITIONAL_ONLY: "posonly", inspect.Parameter.POSITIONAL_OR_KEYWORD: "poskw",
            inspect.Parameter.VAR_POSITIONAL: "varpos", inspect.Parameter.KEYWORD_ONLY: "kwonly",
@@ -61,12 +83,15 @@ def render_params(params, recv, recv_ann=None, recv_posonly=False):
 def func_source(f, ind):
     recv = {"instance": "self", "class": "cls", "property": "self"}.get(f["fkind"])
     lines = []
+    sub = "my_" if f.get("deco_sub") else ""
     if f["fkind"] == "class":
-        lines.append(ind + "@classmethod")
+        lines.append(ind + "@" + sub + "classmethod")
     elif f["fkind"] == "static":
-        lines.append(ind + "@staticmethod")
+        lines.append(ind + "@" + sub + "staticmethod")
     elif f["fkind"] == "property":
-        lines.append(ind + "@property")
+        lines.append(ind + "@" + sub + "property")
+    if f.get("wraps"):
+        lines.append(ind + "@wraps_deco")
     ret = " -> " + f["ret_ann"] if f.get("ret_ann") else ""
     lines.append("%s%sdef %s(%s)%s:" % (ind, "async " if f.get("is_async") else "", f["name"],
                                         render_params(f["params"], recv, f.get("recv_ann"), f.get("recv_posonly", False)), ret))
@@ -168,10 +193,10 @@ def live_function(mod, f):
         obj = getattr(obj, c)
     raw = obj.__dict__[f["name"]] if f["container"] else getattr(obj, f["name"])
     if isinstance(raw, (classmethod, staticmethod)):
-        return raw.__func__
-    if isinstance(raw, property):
-        return raw.fget
-    return raw
+        raw = raw.__func__
+    elif isinstance(raw, property):
+        raw = raw.fget
+    return inspect.unwrap(raw)        # the function whose code runs (what a trace refers to), below functools.wraps decorators
 
 
 def abs_or_absent(t):
@@ -407,6 +432,24 @@ def gen_c12(tier, seed):
             [{"name": "x", "kind": "kwonly", "default": None}]) if not (fk == "property" and ps)]):
         f = {"name": "po_recv_%d" % n, "container": ["Cls"], "fkind": fk, "params": ps, "recv_posonly": True, "traces": traces_for(ps)}
         cases.append({"funcs": [f], "strategy": "REPLICATE", "k": 0, "family": "c12_positional_only_receiver"})
+    # functions below an ordinary functools.wraps decorator (and below classmethod / staticmethod), sync and async
+    for n, (fk, cont) in enumerate([("module", []), ("instance", ["Cls"]), ("class", ["Cls"]), ("static", ["Cls"])]):
+        for is_async in (False, True):
+            ps = [{"name": "x", "kind": "poskw", "default": None}]
+            f = {"name": "deco_%d_%d" % (n, is_async), "container": cont, "fkind": fk, "params": ps, "wraps": True, "is_async": is_async,
+                 "traces": traces_for(ps)}
+            plain = {"name": "plain_%d_%d" % (n, is_async), "container": cont, "fkind": fk, "params": ps, "is_async": is_async,
+                     "traces": traces_for(ps)}
+            for via in (False, True):
+                cases.append({"funcs": [dict(f), dict(plain)], "strategy": "REPLICATE", "k": 0, "family": "c12_functools_wraps_decorated",
+                              "via_cli": via})
+    # methods declared through SUBCLASSES of classmethod / staticmethod / property
+    for n, (fk, ps) in enumerate([(fk, ps) for fk in ("class", "static", "property") for ps in (
+            [], [{"name": "x", "kind": "poskw", "default": None}, {"name": "y", "kind": "kwonly", "default": "None"}])
+            if not (fk == "property" and ps)]):
+        f = {"name": "sub_deco_%d" % n, "container": ["Cls"], "fkind": fk, "params": ps, "deco_sub": True, "traces": traces_for(ps)}
+        cases.append({"funcs": [f], "strategy": "REPLICATE", "k": 0, "family": "c12_descriptor_subclasses"})
+        cases.append({"funcs": [dict(f)], "strategy": "REPLICATE", "k": 0, "family": "c12_descriptor_subclasses", "via_cli": True})
     # two modules traced in one session, each with a class of the SAME name (methods partly equally named)
     ps1 = [{"name": "a", "kind": "poskw", "default": None}]
     ps2 = [{"name": "a", "kind": "poskw", "default": None}, {"name": "b", "kind": "poskw", "default": "None"}]
